@@ -29,6 +29,12 @@ def eval_case(case):
         return o
     t, per = v.base_str, per_char(v)
     pat, rx, mc, cnt, un = case['pat'], case['regex'], case['mc'], case['n'], case['un']
+    if isinstance(pat, list):
+        # ['sl', i, n]: a slice of the text (so it certainly occurs); for regex=True it is escaped
+        i = pat[1] % max(1, len(t))
+        pat = t[i:i + pat[2]] or 'a'
+        if rx:
+            pat = re.escape(pat)
     fm = case['s']
     fmt = []
     for x in fm:
@@ -118,6 +124,8 @@ def strat(draw):
     p = draw(_progs()[0])
     rx = draw(st.booleans())
     pat = draw(st.sampled_from(REGEXES if rx else PLAIN))
+    if draw(st.integers(0, 2)) == 0:
+        pat = ['sl', draw(st.integers(0, 11)), draw(st.integers(1, 3))]
     un = draw(st.booleans())
     names = ['red', 'bold', 'blue', 'underline', 'bg_red', 'no_bold_faint', 'italic']
     one = st.sampled_from(names).map(lambda n: {'k': 'name', 'v': n})
